@@ -464,7 +464,9 @@ class WrapperMixin(object):
         """Every line of the text is a comment line.
         The first one starts with tag.
         """
-        lines = str(text).split("\n")
+        # A tab would be taken as a place to continue the line,
+        # the rest of the comment would follow without its leader.
+        lines = str(text).expandtabs().split("\n")
         if lines[-1] == "" and (len(lines) > 1 or not tag):
             lines.pop()  # remove trailing newline
         for line in lines:
